@@ -85,6 +85,20 @@ fn main() {
             synth::run(seed, count, &args[4]).print();
         }
         "dotnames" => synth::dotnames_run().print(),
+        "openmsg" => {
+            // cfbh openmsg <file>: the crate's verdict on a byte string, both modes (for debugging)
+            let bytes = std::fs::read(&args[2]).unwrap();
+            for strict in [false, true] {
+                let mut oo = cfb::OpenOptions::new();
+                if strict {
+                    oo = oo.strict();
+                }
+                match oo.open_with(std::io::Cursor::new(bytes.clone())) {
+                    Ok(_) => println!("strict={} ok", strict),
+                    Err(e) => println!("strict={} {:?}: {}", strict, e.kind(), e),
+                }
+            }
+        }
         "difat" => {
             // cfbh difat <seed> <count> <outfile>
             let seed: u64 = args[2].parse().unwrap();
